@@ -800,7 +800,11 @@ def extract_capabilities(text: bytes) -> tuple[bytes, list[bytes]]:
     if b"\0" not in text:
         return text, []
     text, capabilities = text.rstrip().split(b"\0")
-    return (text, capabilities.strip().split(b" "))
+    capabilities = capabilities.strip()
+    if not capabilities:
+        # an empty capability list is an empty list, not [b""]
+        return (text, [])
+    return (text, capabilities.split(b" "))
 
 
 def extract_want_line_capabilities(text: bytes) -> tuple[bytes, list[bytes]]:
